@@ -203,7 +203,7 @@ class ANTLRSemantics:
     def token(self, ast: AST) -> g.Token | g.Void:
         name = ast.name
         if ast.exp:
-            exp = g.Token(token=ast.value)
+            exp = ast.exp if isinstance(ast.exp, g.Token) else g.Token(token=str(ast.exp))
             self.tokens[name] = exp
         else:
             exp = g.Void()  # type: ignore
